@@ -3,7 +3,11 @@ package varmq
 // C13 — distributed consumers drain the shared adapter; each item is run by
 // exactly one of them (DESIGN §5 C13).
 
-import "github.com/goptics/varmq/internal/simrt"
+import (
+	"time"
+
+	"github.com/goptics/varmq/internal/simrt"
+)
 
 func init() {
 	register(&Property{ID: "C13",
@@ -82,6 +86,16 @@ func genC13(r *simrt.Rand, tier string) (Cfg, *Program) {
 		// still drain it (acknowledgement / enqueue faults belong to C11)
 		c.Queues[i].FAck, c.Queues[i].FEnq = 0, 0
 		c.Queues[i].FDeq = pick(r, []int{0, 0, 25})
+	}
+	if r.Chance(6) {
+		// sustained contention as one consumer sees it: the backend answers a long run of
+		// dequeues with "nothing for you" while it holds items (the others were faster every
+		// time, or it is briefly unavailable).  Each one is an error, not a reason to stand
+		// still: the items are executed as soon as the backend hands them out (C13.e).
+		c.Queues[0].FDeqBurst = 19 + r.Intn(10)
+		if r.Chance(70) {
+			c.Consumers = 1
+		}
 	}
 	// preloaded backend and nobody submits afterwards: no notification will ever arrive,
 	// the consumers must find the items on their own when they are bound
@@ -173,6 +187,12 @@ func judgeC13(j *judgeCtx) {
 	}
 	if ad == nil {
 		return
+	}
+	// bounded progress once the refusals stop: nothing in these episodes takes simulated time
+	// but the jobs' own delays (milliseconds), so a system that is at rest only after seconds
+	// of simulated time has been standing still with work to do
+	if wd.cfg.Queues[0].FDeqBurst > 0 && j.ep.Res.Now > 5*time.Second {
+		j.add("C13.e", j.final, "after %d consecutive refused dequeues the consumers came to rest only at simulated time %v (the programme's own delays are a few milliseconds): a failed dequeue is an error, not a stop", wd.cfg.Queues[0].FDeqBurst, j.ep.Res.Now)
 	}
 	for _, s := range wd.subs {
 		if len(s.Entries) >= 2 {
